@@ -26,6 +26,19 @@ func (Declaration).Module
   pure
   trusted
 
+// the printable names of the operators (switches over constants)
+func (UnaryOperator).String
+  pure
+  trusted
+
+func (BinaryOperator).String
+  pure
+  trusted
+
+func (TernaryOperator).String
+  pure
+  trusted
+
 func (Alias).GetTokens
   pure
   trusted
